@@ -22,3 +22,22 @@ C05_INFEASIBLE = {
         "the scan loop only breaks (found_m) on 'M' or 'm', so value[-1] is one of the two letters tested before this else-branch"
     ),
 }
+
+_RANGE = (
+    "defensive range check on a colour number that is either the 24-bit field AttrSpec stored from a parser result "
+    "(parsers return None outside 0..255 / 0..87) or a parser result itself; reachability depends on values, the "
+    "bounds themselves are cross-checked between the 256/88 twins by C18.2"
+)
+C18_INFEASIBLE = {
+    "display.common._color_desc_256:ValueError:raise ValueError(num)": _RANGE,
+    "display.common._color_desc_88:ValueError:raise ValueError(num)": _RANGE,
+    "display.common.AttrSpec.get_rgb_values:ValueError:raise ValueError(f'Invalid AttrSpec _value: {self.foreground_number!r}')": _RANGE,
+    "display.common.AttrSpec.get_rgb_values:ValueError:raise ValueError(f'Invalid AttrSpec _value: {self.background_number!r}')": _RANGE,
+    "display.common.AttrSpec.get_rgb_values:ValueError:int(x, 16)": "x ranges over slices of a string produced by the format spec :06x, always hexadecimal",
+}
+C18_BOUNDARY_OK = {}
+C18_SIB_EXCEPTIONS = {
+    "_parse_color_256~_parse_color_88:test:len(desc) == N": (
+        "the 88-colour parser additionally accepts #rrggbb by sampling its digits; at 256 colours the caller converts through _true_to_256 first"
+    ),
+}
